@@ -79,6 +79,22 @@ func (r *recorded) get(d rhpmitm.Dir, i int) *rhpmitm.Msg {
 	return r.msgs[key(d, i)]
 }
 
+// wait returns the message once it was recorded, polling up to d (a host that
+// invents its final answer may have to wait for the renter's message it answers).
+func (r *recorded) wait(dir rhpmitm.Dir, i int, d time.Duration, gone <-chan struct{}) *rhpmitm.Msg {
+	deadline := time.Now().Add(d)
+	for {
+		if m := r.get(dir, i); m != nil || time.Now().After(deadline) {
+			return m
+		}
+		select {
+		case <-gone:
+			return r.get(dir, i)
+		case <-time.After(200 * time.Microsecond):
+		}
+	}
+}
+
 // recordHook records every message and forwards it untouched.
 func recordHook(rec *recorded) rhpmitm.Hook {
 	return func(m *rhpmitm.Msg) rhpmitm.Action {
